@@ -23,7 +23,7 @@ import (
 // directory: VerifyDir + Open + Replay must give exactly the records that end
 // at or before the cut; records appended afterwards must replay after them.
 
-func init() { props["C13"] = sim.PropSpec{Gen: genC13, Exec: execC13} }
+func init() { props["C13"] = sim.PropSpec{Gen: genC13, Exec: execC13, NoShrink: noShrink} }
 
 const c13MinSegment = 64 << 10
 
@@ -186,7 +186,7 @@ func (w *c13World) checkReplay(what string) {
 	got, err := replayAll(w.m)
 	w.res.Checks++
 	kind, detail := diffRecs(got, w.recs)
-	w.res.Trace.Add("replay %s n=%d err=%v diff=%s", what, len(got), err, kind)
+	w.res.Trace.Add("replay %s n=%d err=%s diff=%s", what, len(got), errS(err), kind)
 	if err != nil {
 		w.res.Violate(w.step, "replay_error", map[string]string{"phase": "clean"}, "%s: Replay of %d appended records failed: %v", what, len(w.recs), err)
 		return
@@ -225,7 +225,7 @@ func (w *c13World) appendRecs(batch []wal.Record) {
 	if perr != nil {
 		err = perr
 	}
-	w.res.Trace.Add("append n=%d err=%v", len(batch), err)
+	w.res.Trace.Add("append n=%d err=%s", len(batch), errS(err))
 	if err != nil || len(infos) != len(batch) {
 		w.res.Violate(w.step, "append_error", nil, "AppendRecords(%d records): infos=%d err=%v", len(batch), len(infos), err)
 		return
@@ -285,7 +285,7 @@ func execC13(t *testing.T, c *sim.Case) *sim.Result {
 			w.appendRecs([]wal.Record{{Type: wal.RecordType(uint64(op.A) % 4), Payload: fill(int(n), op.C, uint64(i)+1)}})
 		case "rotate":
 			err := w.m.Rotate()
-			res.Trace.Add("rotate err=%v", err)
+			res.Trace.Add("rotate err=%s", errS(err))
 			if err != nil {
 				res.Violate(i, "rotate_error", nil, "Rotate: %v", err)
 			}
@@ -293,7 +293,7 @@ func execC13(t *testing.T, c *sim.Case) *sim.Result {
 		case "switch":
 			id := w.m.ActiveSegment() + 1 + uint32(uint64(op.A)%3)
 			err := w.m.SwitchSegment(id, true)
-			res.Trace.Add("switch %d err=%v", id, err)
+			res.Trace.Add("switch %d err=%s", id, errS(err))
 			if err != nil {
 				res.Violate(i, "rotate_error", nil, "SwitchSegment(%d,true): %v", id, err)
 			}
@@ -426,10 +426,14 @@ func (w *c13World) cuts() {
 	}
 	nPost := int(w.c.CfgInt("post_records", 2))
 	fs := vfs.OSFS{}
+	// Every recovery pass allocates 256 KiB readers; collect by hand (cost only).
+	gc, restoreGC := startGCPacer()
+	defer restoreGC()
 	for n, cut := range sortedInts(set) {
 		if n%64 == 0 {
 			sim.Beat()
 		}
+		gc.after()
 		// Restore the image: older segments are untouched by construction, any
 		// segment created by the previous iteration's appends is removed.
 		for _, id := range segFiles(img) {
@@ -453,7 +457,7 @@ func (w *c13World) cuts() {
 		}
 		tr := fmt.Sprintf("cut %d/%d %s", cut, size, where)
 		if err := wal.VerifyDir(img, fs); err != nil {
-			res.Trace.Add("%s verify err=%v", tr, err)
+			res.Trace.Add("%s verify err=%s", tr, errS(err))
 			res.Violate(n, "cut_verify_error", sig, "newest segment cut at %d of %d (%s): VerifyDir: %v", cut, size, where, err)
 			continue
 		}
@@ -463,7 +467,7 @@ func (w *c13World) cuts() {
 			oerr = perr
 		}
 		if oerr != nil {
-			res.Trace.Add("%s open err=%v", tr, oerr)
+			res.Trace.Add("%s open err=%s", tr, errS(oerr))
 			res.Violate(n, "cut_open_error", sig, "newest segment cut at %d of %d (%s): Open: %v", cut, size, where, oerr)
 			continue
 		}
@@ -490,7 +494,7 @@ func (w *c13World) cuts() {
 			aerr = m.Sync()
 		}
 		if aerr != nil || len(infos) != len(post) {
-			res.Trace.Add("%s append err=%v", tr, aerr)
+			res.Trace.Add("%s append err=%s", tr, errS(aerr))
 			res.Violate(n, "append_after_cut_error", sig, "newest segment cut at %d of %d (%s): AppendRecords/Sync after recovery: %v", cut, size, where, aerr)
 			_ = m.Close()
 			continue
@@ -502,7 +506,7 @@ func (w *c13World) cuts() {
 		got2, rerr2 := replayAll(m)
 		res.Checks++
 		kind2, detail2 := diffRecs(got2, exp2)
-		res.Trace.Add("%s n=%d err=%v diff=%s | post n=%d err=%v diff=%s", tr, len(got), rerr, kind, len(got2), rerr2, kind2)
+		res.Trace.Add("%s n=%d err=%s diff=%s | post n=%d err=%s diff=%s", tr, len(got), errS(rerr), kind, len(got2), errS(rerr2), kind2)
 		if rerr2 != nil {
 			res.Violate(n, "append_after_cut_replay_error", sig, "newest segment cut at %d of %d (%s), %d records appended after recovery: Replay: %v", cut, size, where, len(post), rerr2)
 		} else if kind2 != "" {
